@@ -110,7 +110,7 @@ StepApi(rec) ==
        /\ UNCHANGED <<mem, cfg, skip>>
 
 StepQev(rec) ==
-  LET exp == [c \in 1..NCmds(cfg) |-> <<IsBuffered(cfg, S, c - 1, CT_NONE), IsBuffered(cfg, S, c - 1, CT_READ), IsBuffered(cfg, S, c - 1, CT_TEST)>>] IN
+  LET exp == [c \in 1..Len(cfg.cmds) |-> <<IsBuffered(cfg, S, c - 1, CT_NONE), IsBuffered(cfg, S, c - 1, CT_READ), IsBuffered(cfg, S, c - 1, CT_TEST)>>] IN
   IF rec.pu # S.ucmd \/ rec.pc # S.cmd \/ rec.bf # exp THEN NoteDrift(rec, "qev", <<S.ucmd, S.cmd, exp>>)
   ELSE /\ res' = [res EXCEPT !.steps = @ + 1] /\ UNCHANGED <<S, mem, cfg, skip>>
 
